@@ -1632,6 +1632,7 @@ impl Engine<'_> {
                 }
             }
             {
+                let mut walker_stats: Option<forest::ForestStats> = None;
                 match forest::check_forest(&dec, dims, metric.disk_name()) {
                     Ok(st) => {
                         self.c.inc("forests_checked");
@@ -1648,6 +1649,7 @@ impl Engine<'_> {
                             self.c.inc("forests_with_splits");
                             self.sigs.push(st.shape);
                         }
+                        walker_stats = Some(st.clone());
                         self.transitions(index, &dec);
                         if ck.options {
                             if let Some(end) = self.check_options(&m, opts, &dec, &st, step, desc) {
@@ -1687,6 +1689,24 @@ impl Engine<'_> {
                     match r {
                         Ok(Ok(())) => self.c.inc("upstream_walker_agreed"),
                         other => return Some(CaseEnd::Inconclusive(format!("after {desc}: harness walker accepts the forest but Reader::assert_validity says {other:?}"))),
+                    }
+                    // the crate's own statistics over the same transaction against what the walker counted
+                    if let Some(ws) = &walker_stats {
+                        let r = with_metric!(metric, D, guarded(|| Reader::<D>::open(wtxn, index, adb::<D>(db)).and_then(|r| r.stats(wtxn).map(|s| (s, r.n_trees(), r.n_items())))));
+                        match r {
+                            Ok(Ok((s, nt, ni))) => {
+                                let splits: usize = s.tree_stats.iter().map(|t| t.split_nodes).sum();
+                                let buckets: usize = s.tree_stats.iter().map(|t| t.descendants).sum();
+                                let depth = s.tree_stats.iter().map(|t| t.depth).max().unwrap_or(0);
+                                let theirs = (s.leaf, ni, s.tree_stats.len(), nt, splits, buckets, depth);
+                                let ours = (ws.n_items, ws.n_items, ws.n_trees, ws.n_trees, ws.n_splits, ws.n_buckets, ws.max_depth);
+                                if theirs != ours {
+                                    return Some(CaseEnd::Inconclusive(format!("after {desc}: Reader::stats (items, n_items, trees, n_trees, splits, buckets, depth) = {theirs:?}, the walker over the raw dump counted {ours:?}")));
+                                }
+                                self.c.inc("reader_stats_agreed");
+                            }
+                            other => return Some(CaseEnd::Inconclusive(format!("after {desc}: Reader::stats -> {other:?}"))),
+                        }
                     }
                 }
             }
